@@ -151,6 +151,10 @@ def SameR (s : SeqState) (r : Raw) : Prop := Same s r.st
 
 theorem SameR_fail (s : SeqState) (e : Err) : SameR s (fail s e) := Same.rfl' s
 theorem SameR_done {s s' : SeqState} (h : Same s s') : SameR s (done s') := h
+theorem SameR_orRollback {s : SeqState} {r : Raw} (h : SameR s r) : SameR s (r.orRollback s) := by
+  rcases Raw.orRollback_cases r s with e | ⟨e, he⟩
+  · rw [e]; exact h
+  · rw [he]; exact SameR_fail s _
 
 theorem SameR_withChan (s : SeqState) (n : ChName) (f : ChanState → CRes) (hf : ∀ c, Keep c (f c).c) :
     SameR s (s.withChan n f) := by
@@ -308,7 +312,7 @@ def slotsOnly : Op → Bool
 measurement flag and the addressed bases alone.** -/
 theorem stepRaw_same {s : SeqState} {op : Op} (h : slotsOnly op = true) : Same s (stepRaw s op).st := by
   cases op with
-  | target qs n => exact SameR_store _ (SameR_targetCore s qs n)
+  | target qs n => exact SameR_store _ (SameR_orRollback (SameR_targetCore s qs n))
   | add p n proto =>
     simp only [stepRaw]
     apply SameR_store; apply SameR_markNonEmpty
@@ -325,13 +329,14 @@ theorem stepRaw_same {s : SeqState} {op : Op} (h : slotsOnly op = true) : Same s
     repeat' split
     all_goals first | exact SameR_fail s _ | exact SameR_addCore s _ _ _ _
   | delay d n atRest =>
-    refine SameR_store _ ?_
+    refine SameR_store _ (SameR_orRollback ?_)
     rcases delayChecked_cases s d n atRest with hc | ⟨e, hc⟩ <;> rw [hc]
     · exact SameR_delayCore s d n atRest
     · exact SameR_fail s e
   | align chs atRest =>
     simp only [stepRaw]
     apply SameR_store
+    apply SameR_orRollback
     repeat' split
     all_goals first
       | exact SameR_fail s _ | exact SameR_done (Same.rfl' s) | exact SameR_alignLoop _ _ _
@@ -644,6 +649,8 @@ theorem enableEom_step {s : SeqState} {n : ChName} {e : EomIn}
           | ok detOff =>
             rw [hp] at hok
             simp only at hok ⊢
+            have hro := Raw.orRollback_ok hok
+            rw [hro] at hok ⊢
             unfold enableEomCommit at hok ⊢
             simp only at hok ⊢
             have := eom_commit (s := s) (n := n) (b := true)
@@ -696,6 +703,9 @@ theorem disableEom_step {s : SeqState} {n : ChName} {corr : Bool}
     modeOf s n = some true ∧ s.measured = none := by
   simp only [stepRaw] at hok ⊢
   obtain ⟨h1, h2, h3⟩ := store_ok' hok
+  -- (the call succeeded: nothing was rolled back)
+  have hro := Raw.orRollback_ok h1
+  rw [hro] at h1 h2 h3 ⊢
   -- the call before it is stored
   have inner : ∀ R : Raw,
       R = (if s.measured.isSome then fail s .measured
@@ -779,6 +789,8 @@ theorem modifyEom_step {s : SeqState} {n : ChName} {e : EomIn}
         | ok detOff =>
           rw [hp] at hok
           simp only at hok ⊢
+          have hro := Raw.orRollback_ok hok
+          rw [hro] at hok ⊢
           unfold modifyEomCommit at hok ⊢
           -- first half: close the running block
           obtain ⟨hx, hm⟩ := withChan_sets (s := s) (n := n) (b := false)
@@ -1160,6 +1172,7 @@ theorem target_guards {s : SeqState} {qs : List Nat} {n : ChName}
       c.cfg.isLocal = true ∧ overNat c.cfg.maxTargets qs.length = false ∧ qs.any (· ≥ s.nQ) = false := by
   simp only [stepRaw] at hok
   obtain ⟨h1, _, _⟩ := store_ok' hok
+  rw [Raw.orRollback_err] at h1
   unfold targetCore at h1
   by_cases g0 : s.measured.isSome = true
   · rw [if_pos g0] at h1; simp [fail] at h1
@@ -1307,6 +1320,7 @@ theorem delay_guards {s : SeqState} {d : Int} {n : ChName} {atRest : Bool}
     s.measured = none ∧ ∃ c, s.getChan n = some c := by
   simp only [stepRaw] at hok
   obtain ⟨h1, _, _⟩ := store_ok' hok
+  rw [Raw.orRollback_err] at h1
   rcases delayChecked_cases s d n atRest with hc | ⟨e, hc⟩
   · rw [hc] at h1
     unfold delayCore at h1
@@ -1324,6 +1338,7 @@ theorem align_guards {s : SeqState} {chs : List ChName} {atRest : Bool}
       chs.eraseDups.length = chs.length ∧ ¬ chs.length < 2 := by
   simp only [stepRaw] at hok
   obtain ⟨h1, _, _⟩ := store_ok' hok
+  rw [Raw.orRollback_err] at h1
   by_cases g0 : s.measured.isSome = true
   · rw [if_pos g0] at h1; simp [fail] at h1
   · rw [if_neg g0] at h1
